@@ -14,6 +14,17 @@ BASELINE_OFF = (
 
 # id -> (level, technique, level text, level note, design ref)
 T = {
+    "C05": (
+        "exploration",
+        "exhaustive enumeration of explicit mass/grid/option alphabets on the real solvers; independent unique-flux cost on thin grids; certified lower bound (Kelley cutting planes over the cycle space) for the discrete minimum",
+        "Identity, symmetry, mass/weight scaling and the first-moment bound are evaluated for all ordered pairs of 2-quanta compositions on the "
+        "small grids and for named dense/sparse/single-cell pairs elsewhere, for Newton and Bregman and all L1 x mobility modes; on every 1-D and "
+        "one-cell-thin grid in the bound every method x mode x iteration count x formulation must return the independently computed cost of the "
+        "unique mass-conserving flux; on grids with <= 5 cycles the distance is compared with a certified lower bound of the discrete minimum; "
+        "front-end dispatch is compared bit-for-bit; the OpenCV back-end is checked on all ordered single-cell moves of two grids x three voxel-size pairs.",
+        "Trusted: props/_wass.py reference operators, scipy linprog for the cutting-plane bound (a certified bound cannot raise a false alarm; box assumption checked a posteriori). Bregman mass scaling is asserted with L scaled along.",
+        "DESIGN.md §3 C05",
+    ),
     "C08": (
         "model_checking",
         "exhaustive enumeration of grid shapes x admissible right-hand-side bases through the real linear_solve of every formulation/back-end; explicit-state search over call histories (factorisation reuse)",
